@@ -10,7 +10,7 @@
    (offset, requested length) that fed it (`check_trace`), then interprets the reads
    over the file (`check_file`).  The read chunk size (65536 in the source) is a
    parameter. *)
-From PV Require Import Bytes.
+From PV Require Import Bytes C32_gen.
 Open Scope Z_scope.
 
 (* file[o, o+n) as far as it exists: the result of handle.read(o, n) *)
@@ -83,6 +83,11 @@ Inductive reply :=
 
 Definition SFTP_FAILURE : Z := 4.
 
+(* regenerated from the AST of _check_file on every run (Gen/C32_gen.v): the minimum block size
+   and the read chunk size the source uses *)
+Definition MIN_BLOCK : Z := gen_min_block.
+Definition SOURCE_CHUNK : Z := gen_chunk.
+
 (* effective length / block size: `if length == 0: length = st.st_size - start`,
    `if block_size == 0: block_size = length` *)
 Definition eff_length (size start length : Z) : Z := if length =? 0 then size - start else length.
@@ -92,7 +97,7 @@ Definition eff_bs (size start length bs : Z) : Z := if bs =? 0 then eff_length s
 Definition check_trace (chunk size start length bs : Z) : reply :=
   let length' := eff_length size start length in
   let bs' := eff_bs size start length bs in
-  if bs' <? 256 then Status SFTP_FAILURE     (* "Block size too small" *)
+  if bs' <? MIN_BLOCK then Status SFTP_FAILURE     (* "Block size too small" *)
   else match outer chunk size (outer_fuel size (start + length') start) (start + length') bs' start [] with
        | None => NoFuel
        | Some t => Digests t
